@@ -1,8 +1,15 @@
 import RawPanelVerif.Props.C09
 open RawPanelVerif.C09
+#print axioms write_deadline_never_armed
+#print axioms reader_never_arms_write_deadline
+#print axioms written_isPrefix
 #print axioms written_is_concat
 #print axioms drained_all_written
+#print axioms writes_never_interleave
 #print axioms reads_do_not_affect_writes
+#print axioms set_deadline_breaks_writes_counterexample
 #print axioms frames_of_written
 #print axioms ascii_one_lf_per_line
-#print axioms writes_never_interleave
+#print axioms single_writer
+#print axioms taken_while_connected_written_to_live_conn
+#print axioms stale_writer_counterexample
